@@ -9,11 +9,11 @@ Deductive part (pyvc, real ASTs of /repo/Lib/ufo2ft/featureWriters/baseFeatureWr
                                           requested tag count, first marker per tag wins, every such tag is reported
   * FeatureCompiler.initFeatureWriters    stable partition: GSUB writers first, relative orders kept
 
-Two three-line generator helpers of featureWriters/ast.py (`findFeatureTags`, `findCommentPattern`; `yield` is outside
-the pyvc subset, see notes/C17.requests.md) enter the two writer contracts as CALL-SITE SUMMARIES; both summaries are
-checked against the real helpers by the bounded conformance part of vcheck/hooks/c17.py and listed as assumptions.
-`BaseFeatureWriter._insert` (list surgery at symbolic positions, `del xs[i]`, `id()`) is outside the subset as well: its
-clauses are checked exhaustively over a finite domain of block shapes by the hook (bounded), as is the end-to-end observer.
+`ast.findFeatureTags` (and the generator `iterFeatureBlocks` under it) is called through its CONTRACT (contracts/c17_iter.py).
+The RECURSIVE generator `ast.findCommentPattern` is still outside the pyvc subset: it enters collectInsertMarkers as a CALL-SITE
+SUMMARY, checked against the real helper by the bounded conformance part of vcheck/hooks/c17.py and listed as an assumption.
+`BaseFeatureWriter._insert` is under contract in contracts/c17_insert.py (one generated feature: the whole result); `write` /
+`shouldContinue` in contracts/c17_write.py.
 """
 import re
 
@@ -74,12 +74,14 @@ def _findCommentPattern(ex, st, args, kwargs, node):
 
 @M.shim_function(
     "findFeatureTags",
-    "ASSUMED CALL-SITE SUMMARY of ufo2ft.featureWriters.ast.findFeatureTags (set comprehension over a generator, outside the subset): "
-    "returns a new set equal to feaFile.featureTags = {s.name | s top-level FeatureBlock} — bounded conformance in vcheck/hooks/c17.py",
+    "glue, no assumption about ufo2ft: ast.findFeatureTags(feaFile) is called through its CONTRACT (contracts/c17_iter.py); the result is a new set object (set comprehension)",
 )
 def _findFeatureTags(ex, st, args, kwargs, node):
+    """`ast.findFeatureTags(feaFile)` through its CONTRACT (contracts/c17_iter.py: exactly the tags of the top-level feature blocks); the
+    returned set becomes a fresh set object (Python: a set comprehension builds a new set)"""
     (feaFile,) = args
-    return _new_set(ex, st, ex.getattr(feaFile, "featureTags", st, node), node)
+    r = ex.call_contract(CONTRACTS["ufo2ft.featureWriters.ast:findFeatureTags"], [feaFile], {}, st, node)
+    return _new_set(ex, st, r, node)
 
 
 _SHIM = M.fea_shim(findCommentPattern=_findCommentPattern, findFeatureTags=_findFeatureTags)
